@@ -518,6 +518,18 @@ class Sym:
                         self._iterate(body, bb, t, st, out, depth, short, args[0], args[1] if short == "fold" else None, cal, name, fn,
                                       args, uid, 0)
                         return
+                if fn and short in ("put_slice", "extend_from_slice") and len(args) == 2:
+                    # `buf.put_slice(&x.to_be_bytes())` is `buf.put_uN(x)` spelled byte-wise (bytes defines put_u64 that way): the event
+                    # carries the canonical name, so rules that speak of "the 8-byte size field" see it in either spelling
+                    a1 = args[1]
+                    while isinstance(a1, tuple) and a1 and a1[0] in ("ref", "deref", "cast"):
+                        a1 = a1[1]
+                    if isinstance(a1, tuple) and a1 and a1[0] in ("call", "pure") and a1[1].endswith("::to_be_bytes") and len(a1[2]) == 1:
+                        m_ = re.search(r"<impl (u8|u16|u32|u64)>::to_be_bytes$", a1[1])
+                        if m_:
+                            short = "put_" + m_.group(1)
+                            name = "bytes::BufMut::" + short
+                            args = (args[0], a1[2][0])
                 comb = self._combinator(name, short, args) if (fn and self.expand_combinators) else None
                 if comb is not None:
                     self._expand_combinator(body, bb, t, st, out, depth, comb, name, fn, args, uid)
